@@ -190,7 +190,8 @@ impl LayerContents {
     /// be replaced.
     ///
     /// Returns an error if `overwrite` is false but a layer with the new
-    /// name exists, if no layer with the old name exists, if the new name
+    /// name exists, if the layer with the new name is the default layer (which
+    /// cannot be replaced), if no layer with the old name exists, if the new name
     /// is not a valid [`Name`] or when anything but the default layer should
     /// be renamed to "public.default".
     pub fn rename_layer(
@@ -209,6 +210,9 @@ impl LayerContents {
             // Renaming a layer to its own name is a no-op; in particular, it
             // must not overwrite (i.e. remove) itself.
             Ok(())
+        } else if self.layers[0].name == new {
+            // The default layer cannot be removed, so it cannot be overwritten.
+            Err(NamingError::Duplicate(new.to_string()))
         } else {
             let name = Name::new(new)?;
             if overwrite {
